@@ -15,12 +15,12 @@ NCPU = os.cpu_count() or 4
 
 # runs of seeded search (plain build / sanitized build) and which single-fault spaces are enumerated completely
 BUDGET = {
-    ("C20", "quick"): dict(search=160000, san=4000, det=400, spaces=[]),
-    ("C20", "thorough"): dict(search=4000000, san=160000, det=5000, spaces=[]),
+    ("C20", "quick"): dict(search=160000, san=4000, det=400, spaces=[], san_spaces=["stress"]),
+    ("C20", "thorough"): dict(search=4000000, san=160000, det=5000, spaces=[], san_spaces=["stress"]),
     ("C03", "quick"): dict(search=80000, san=3000, det=400, spaces=["write"]),
     ("C03", "thorough"): dict(search=2000000, san=80000, det=5000, spaces=["write"], san_spaces=["write"]),
-    ("C19", "quick"): dict(search=100000, san=5000, det=400, spaces=["trunc", "flip", "alloc", "read"]),
-    ("C19", "thorough"): dict(search=2500000, san=150000, det=5000, spaces=["trunc", "flip", "alloc", "read", "write"], san_spaces=["trunc", "flip", "alloc"]),
+    ("C19", "quick"): dict(search=100000, san=5000, det=400, spaces=["trunc", "flip", "alloc", "read", "stress"], san_spaces=["stress"]),
+    ("C19", "thorough"): dict(search=2500000, san=150000, det=5000, spaces=["trunc", "flip", "alloc", "read", "write", "stress"], san_spaces=["trunc", "flip", "alloc", "stress"]),
 }
 
 LEVEL = {"C20": "exploration", "C03": "fault_enumeration", "C19": "fault_enumeration"}
@@ -37,6 +37,7 @@ SPACE_DESC = {
     "flip": "one flipped bit at every bit position of every corpus file",
     "alloc": "the k-th allocation call returns NULL, for every k up to the number of allocations of the fault-free run, for every corpus file",
     "read": "the k-th read of the input fails with EIO, for every k of the fault-free run, for every corpus file",
+    "stress": "every (family, size knob) pair of the stress family once, fault-free, including the largest knobs (10^5-byte tokens, 196 417 case labels in worst-case AVL order, 4097 names per scope)",
     "write": "the k-th write to the output fails (ENOSPC), for every k of the fault-free run under 4 buffer modes, transient and persistent, accepting 0 / 1 / all-but-one bytes, for every corpus file",
 }
 
